@@ -217,8 +217,9 @@ def Union1St (f : Nat) : Prop :=
   ∀ {ms : Members} {sz : Nat} {fl0 : Bool} {c : Init} {inner : List ITok} {c' : Init} {rest : List ITok},
     subOk (.union ms sz fl0) = true → shaped (.union ms sz fl0) c = true →
     unionInit f ms (.lbrace :: inner) c = .ok (c', rest) →
-    shaped (.union ms sz fl0) c' = true ∧ (c = newInit (.union ms sz fl0) false → ∀ top g fl,
-      Imp (initList g (.union ms sz fl0) top c (firstCursor (.union ms sz fl0)) inner true fl) (.ok ⟨c', rest, fl⟩))
+    shaped (.union ms sz fl0) c' = true ∧ (c = newInit (.union ms sz fl0) false → ∀ top g fl res,
+      initList g (.union ms sz fl0) top c (firstCursor (.union ms sz fl0)) inner true fl = .ok res → res.fl.clean = true →
+      defaultMember (.union ms sz fl0) res.obj = c' ∧ res.rest = rest ∧ res.fl = fl)
 
 structure Sim (f : Nat) : Prop where
   init2 : Init2St f
